@@ -54,6 +54,8 @@ impl expr::ValueExpr {
 // PriceRepositoryBuilder: only insert_price is reached from book-keeping (price_db.rs; see group `pricedb`)
 #[verifier::external_body]
 pub struct PriceRepositoryBuilder { _p: usize }
+// derive(Default) on PriceRepositoryBuilder (R13-style): no records
+impl Default for PriceRepositoryBuilder { #[verifier::external_body] fn default() -> (r: Self) ensures r.log().len() == 0 { unimplemented!() } }
 #[derive(Clone, Copy)]
 pub enum PriceSource { Ledger, PriceDB }
 
